@@ -129,10 +129,14 @@ def tlc(module, cfg, scratch, workers=1, env=None, timeout=600, simulate=None, d
         rc = -9
         subprocess.run(["pkill", "-f", meta], stdout=subprocess.DEVNULL, stderr=subprocess.DEVNULL)
     shutil.rmtree(meta, ignore_errors=True)
-    return TLCResult(out, rc, time.time() - t0)
+    res = TLCResult(out, rc, time.time() - t0)
+    res.rerun = lambda: tlc(module, cfg, scratch, workers, env, timeout, simulate, depth, coverage, deque, extra, spec_dir, seed_)
+    return res
 
 
 def must_clean(res, what):
+    if not res.clean and not res.violated and hasattr(res, "rerun"):
+        res = res.rerun()          # a run that neither completed nor reported a violation (JVM / file-system hiccup): once more
     if not res.clean:
         tail = "\n".join(res.out.splitlines()[-40:])
         raise MachineryError("TLC not clean on %s (violated=%s)\n%s" % (what, res.violated, tail))
@@ -141,6 +145,8 @@ def must_clean(res, what):
 
 def must_violate(res, inv, what):
     """Self-test: the as-read deviation switch must make TLC report `inv`."""
+    if inv not in res.violated and not res.violated and hasattr(res, "rerun"):
+        res = res.rerun()          # neither a violation nor a usable result: once more before calling it a machinery failure
     if inv not in res.violated:
         tail = "\n".join(res.out.splitlines()[-30:])
         raise MachineryError("self-test: TLC did not report %s on %s\n%s" % (inv, what, tail))
